@@ -151,7 +151,8 @@ def run_one(cfg, prefix, expect=None):
 
 def _line_files():
     import aws_durable_execution_sdk_python.state as m
-    return {m.__file__}
+    import aws_durable_execution_sdk_python.threading as t
+    return {m.__file__, t.__file__}
 
 
 def features(cfg):
@@ -185,6 +186,8 @@ def judge_stream(cfg, ex, calls, events):
     delivered = {}
     order = []
     for c in calls:
+        if c["failed"]:
+            continue   # rejected by the service: not delivered
         for uid in c["ids"]:
             if uid in delivered:
                 V("duplicate", f"update {uid} delivered twice (calls {delivered[uid][0]} and {c['n']})")
@@ -199,15 +202,17 @@ def judge_stream(cfg, ex, calls, events):
             meta[(pid, idx)] = extra
         elif kind in ("return", "raise"):
             ret[(pid, idx)] = (kind, tick, extra)
+    failing = cfg.get("fail_at") is not None
     for key, (kind, tick, extra) in ret.items():
-        if kind == "raise":
+        if kind == "raise" and not (failing and extra.get("type") == "BackgroundThreadError"):
             V("unexpected-error", f"create_checkpoint {key} raised {extra}")
     # a sync call's own update is delivered before it returns
     for key, m in meta.items():
         if m["sync"] and m["id"] and key in ret and ret[key][0] == "return":
             d = delivered.get(m["id"])
             if d is None or d[1] > ret[key][1]:
-                V("sync-returned-before-delivery", f"sync call {key} returned but {m['id']} not delivered before")
+                V("sync-returned-before-delivery", f"sync call {key} returned successfully but {m['id']} was not "
+                  f"accepted by the service before (released without its update applied and without the failure)")
     # everything handed over (call returned) before a sync call was invoked is delivered by its return
     for skey, sm in meta.items():
         if not sm["sync"] or skey not in ret or ret[skey][0] != "return":
